@@ -991,6 +991,7 @@ def vars_render(case, target):
     P, scheme, extra = set(case["P"]), case["scheme"], case["extra"]
     variables = {}
     hole = {}
+    helpers = {}        # section -> extra option lines of the templated file (scheme ownkey)
     for p in sorted(VPOS):
         lit = LIT[VPOS_LIT[p]]
         if p not in P:
@@ -1000,7 +1001,17 @@ def vars_render(case, target):
         if scheme == "secref" and q and q not in P:
             hole[p] = "${%s:%s}" % (VPOS[q][0], VPOS[q][1])
             continue
-        name = {"plain": "v%d" % p, "secref": "v%d" % p, "chained": "v%d" % p, "keylike": VKEYLIKE[p], "shared": VPOS_LIT[p]}[scheme]
+        if scheme == "ownkey":
+            if VPOS[p][0] == "Tabulation":
+                # the option refers to a helper option of its own section; [Variables] holds a decoy of that name
+                helpers.setdefault("Tabulation", []).append("h%d : %s" % (p, lit))
+                variables["h%d" % p] = LIT["Lextra"]
+                hole[p] = "${h%d}" % p
+                continue
+            if q and q in P and VPOS[q][0] == "Tabulation":
+                hole[p] = "${%s:%s}" % (VPOS[q][0], VPOS[q][1])
+                continue
+        name = {"plain": "v%d" % p, "secref": "v%d" % p, "chained": "v%d" % p, "ownkey": "v%d" % p, "keylike": VKEYLIKE[p], "shared": VPOS_LIT[p]}[scheme]
         if scheme == "chained":       # a variable defined through another variable
             variables[name] = "${w%d}" % p
             variables["w%d" % p] = lit
@@ -1010,17 +1021,20 @@ def vars_render(case, target):
     for e in extra:
         variables.setdefault(e, LIT["Lextra"])
 
-    def body(holes):
+    def body(holes, extra_lines=None):
         out = []
         for sec, ctx in VCONTEXT:
             out.append("[%s]" % sec)
             out += [c.format(target=target) for c in ctx]
+            out += (extra_lines or {}).get(sec, [])
             for p in sorted(VPOS):
                 if VPOS[p][0] == sec:
                     out.append("%s : %s" % (VPOS[p][1], VPOS[p][2].format(holes[p])))
             out.append("")
         return "\n".join(out) + "\n"
-    templ = body(hole)
+    templ = body(hole, helpers)
+    case["_variables"] = dict(variables)
+    case["_templ_without_variables"] = templ
     if variables:
         templ = "[Variables]\n" + "\n".join("%s : %s" % kv for kv in variables.items()) + "\n\n" + templ
     subst = body({p: LIT[VPOS_LIT[p]] for p in VPOS})
@@ -1038,8 +1052,18 @@ def _vars_one(idx):
         for target in ("LAMMPS", "setfl", "GULP", "DL_POLY_EAM")[: 4 if idx % 3 == 0 else 2]:
             templ, subst = vars_render(case, target)
             want = tabulate_text(subst)
-            for route in ("api", "cli"):
-                got = tabulate_text(templ) if route == "api" else tabulate_cli(templ, [], d)
+            routes = ["api", "cli"]
+            if idx % 4 == 0 and case.get("_variables"):
+                routes += ["api-added", "cli-added"]      # the file has no [Variables] section: every variable is given as an added item
+            for route in routes:
+                if route == "api":
+                    got = tabulate_text(templ)
+                elif route == "cli":
+                    got = tabulate_cli(templ, [], d)
+                elif route == "api-added":
+                    got = tabulate_api_raw(case["_templ_without_variables"], [ConfigParserOverrideTuple("Variables", k, v) for k, v in case["_variables"].items()])
+                else:
+                    got = tabulate_cli(case["_templ_without_variables"], [x for k, v in case["_variables"].items() for x in ("-a", "Variables:%s=%s" % (k, v))], d)
                 out["n"] += 1
                 if got[0] != want[0] or (got[0] == "ok" and got[1] != want[1]):
                     clause = "internal-exception" if got[0] == "internal" else "differs-from-substituted"
